@@ -253,7 +253,7 @@ class CallNodeSerializer(Serializer):
             for arg in call_node.arguments
         }
 
-        return {
+        spec = {
             "_version": VERSION,
             "_type": "CallNode",
             "call_hash": call_node.call_hash,
@@ -269,10 +269,17 @@ class CallNodeSerializer(Serializer):
             ],
         }
 
+        # Shallow cache validity checks rely on the tasks of the CallNode's subtree.
+        subtree_tasks = sorted(row.task_hash for row in call_node.task_set)
+        if subtree_tasks:
+            spec["subtree_tasks"] = subtree_tasks
+        return spec
+
     def serialize_query(self, query: Query) -> Iterator[dict]:
         query = query.options(
             selectinload(db.CallNode.arguments).joinedload(db.Argument.arg_results),
             selectinload(db.CallNode.child_edges),
+            selectinload(db.CallNode.task_set),
         )
         for row in query.all():
             yield self.serialize(row)
@@ -299,6 +306,10 @@ class CallNodeSerializer(Serializer):
                     call_order=call_index,
                 )
                 for call_index, child_hash in enumerate(spec["children"])
+            ]
+            + [
+                db.CallSubtreeTask(call_hash=spec["call_hash"], task_hash=task_hash)
+                for task_hash in spec.get("subtree_tasks", [])
             ]
             + [
                 db.Argument(
